@@ -22,6 +22,48 @@ func checkC13(r *Report, p *Program) {
 	r13_2(r, p)
 	r13_3(r, p)
 	r13_4(r, p)
+	rmwResultSet(r, p, "R13.5")
+	// shouldContinueRolling hands latest.desiredChildMap[name] to ApplyUpdate unchecked: what makes that
+	// non-nil is that syncRevisionClaims keeps, for EVERY revision incl. the latest, only names the latest desires
+	r09_5(r, p)
+	r13_6(r, p)
+}
+
+// r13_6: a decoded customize response is cached only after its entries were validated.
+func r13_6(r *Report, p *Program) {
+	const rule = "R13.6"
+	r.Rule(rule, "getCustomizeHookResponse stores the response in the customize cache only after the loop that rejects null relatedResources entries has run: a cached response is served to later syncs and to informer event handlers without being validated again")
+	r.Floor(rule, 1)
+	f := fn(r, p, rule, "controller/common/customize.Manager.getCustomizeHookResponse")
+	if f == nil {
+		return
+	}
+	var loop *engine.RangeLoop
+	for _, l := range engine.RangeLoops(f) {
+		if strings.HasSuffix(E(l.X), ".RelatedResourceRules") {
+			loop = l
+		}
+	}
+	sets := callsTo(f, false, "cache.Cache", ".Set")
+	var setI []ssa.Instruction
+	for _, cs := range sets {
+		if strings.Contains(cs.Key, "cache.Cache") && (strings.HasSuffix(cs.Key, ".Set") || strings.HasSuffix(cs.Key, ".SetNoExpiration")) {
+			setI = append(setI, cs.Instr.(ssa.Instruction))
+		}
+	}
+	ok, why := loop != nil && len(setI) > 0, "validation loop over RelatedResourceRules or the cache store not found"
+	if ok {
+		for _, si := range setI {
+			if loop.Contains(si) {
+				ok, why = false, "the response is cached inside the validation loop"
+				continue
+			}
+			if w := bypass(f, si, func(in ssa.Instruction) bool { return in.Block() == loop.Exit }); w != nil {
+				ok, why = false, "the response is stored in the customize cache before (or without) the loop that rejects null entries: the failing sync returns an error, but its retry and every related-object event read the unvalidated response from the cache and dereference the nil rule; "+pathWhy(w)
+			}
+		}
+	}
+	r.Check(rule, FK(f)+"[validated≺cached]", p.Pos(f.Pos()), ok, "cache store only after the validation loop completed", why)
 }
 
 // responseFields: nil-able members of the decoded hook response types.
